@@ -486,6 +486,32 @@ def _content_split(p):
     return c, Poly({m: v / c for m, v in p.t.items()})
 
 
+def _mono_content(p):
+    """largest monomial in sym generators dividing every term of p: returns (mono Poly, p / mono)"""
+    common = None
+    for m in p.t:
+        d = {g: e for g, e in m if g > 0 and G.info[g]["kind"] == "sym"}
+        if common is None:
+            common = d
+        else:
+            for g in list(common):
+                if g in d:
+                    e1, e2 = common[g], d[g]
+                    if (e1 > 0) != (e2 > 0):
+                        del common[g]
+                    else:
+                        common[g] = min(e1, e2) if e1 > 0 else max(e1, e2)
+                else:
+                    del common[g]
+        if not common:
+            return None, p
+    if not common:
+        return None, p
+    mono = Poly({tuple(sorted(common.items())): F1})
+    imono = Poly({tuple(sorted((g, -e) for g, e in common.items())): F1})
+    return mono, p * imono
+
+
 def pow_atom(B):
     """generator standing for the (non-monomial, content-normalised) polynomial B"""
     k = _key(B)
@@ -532,6 +558,9 @@ def inv(b):
             if g < 0:
                 r = r * const_pow(Fraction(-g), -e)
         return r
+    mono, b2 = _mono_content(b)
+    if mono is not None:
+        return inv(mono) * inv(b2)
     c, q = _content_split(b)
     g = pow_atom(q)
     return Poly({((g, -1),): F1 / c})
@@ -588,12 +617,20 @@ def power(b, e):
             else:
                 r = r * Poly({((g, _nexp(x * e)),): F1})
         return r
+    mono, b2 = _mono_content(b)
+    if mono is not None:
+        return power(mono, e) * power(b2, e)
     c, q = _content_split(b)
     if c < 0:
         # keep the sign inside the base: (-|c| q)**e = |c|**e * (-q)**e
         c, q = -c, -q
+    try:
+        ce = const_pow(c, e)
+    except Undecided:
+        # the rational content has no tractable root: keep it inside the base
+        ce, q = ONE, q * Poly.const(c)
     g = pow_atom(q)
-    return const_pow(c, e) * Poly({((g, e),): F1})
+    return ce * Poly({((g, e),): F1})
 
 
 def sym_power(b, e):
@@ -659,14 +696,17 @@ def _fun_gen(fname, arg):
     return Poly.gen(gid)
 
 
-def ofun(name, args):
+def ofun(name, args, dvals=None):
     """opaque function atom name(args...) of several ring-valued arguments; d/dx = sum_k D_k name (args) * d args[k]/dx,
     the derivative atom's name being given by the rule registered with set_ofun_rule (default name;k)"""
     args = tuple(P(a) for a in args)
     k = (name, tuple(_key(a) for a in args))
+    if dvals is not None:
+        dvals = tuple(P(d) for d in dvals)
+        k = k + (tuple(_key(d) for d in dvals),)
     gid = G.by_ofun.get(k)
     if gid is None:
-        gid = G.new(kind="ofun", name=name, args=args)
+        gid = G.new(kind="ofun", name=name, args=args, dvals=dvals)
         G.by_ofun[k] = gid
     return Poly.gen(gid)
 
@@ -717,7 +757,10 @@ def _dgen(g, x):
             for k, a in enumerate(inf["args"]):
                 da = diff(a, x)
                 if da.t:
-                    r = r + ofun(_ofun_dname(inf["name"], k), inf["args"]) * da
+                    if inf.get("dvals") is not None:
+                        r = r + inf["dvals"][k] * da
+                    else:
+                        r = r + ofun(_ofun_dname(inf["name"], k), inf["args"]) * da
         else:
             a = inf["arg"]
             da = diff(a, x)
@@ -812,11 +855,61 @@ def _split_exp(e):
     return fl, e - fl
 
 
+def _exp_gens(p):
+    s = set()
+    for m in p.t:
+        for g, _ in m:
+            if g > 0:
+                inf = G.info[g]
+                if inf["kind"] == "fun" and inf["fname"] == "Exp":
+                    s.add(g)
+    return s
+
+
+def explog_normal(p):
+    """merge Exp atoms: Exp(x)^a * Exp(y)^b * l^q -> Exp(a x + b y + q Log l) (for generators l whose
+    Log occurs in some Exp argument of p), so that symbolic-exponent powers have one canonical form"""
+    eg = _exp_gens(p)
+    if not eg:
+        return p
+    loggens = {}
+    for g in eg:
+        for gg in G.info[g]["arg"].gens():
+            if gg > 0:
+                inf = G.info[gg]
+                if inf["kind"] == "fun" and inf["fname"] == "Log":
+                    a = inf["arg"]
+                    if len(a.t) == 1:
+                        (m, c), = a.t.items()
+                        if c == 1 and len(m) == 1 and m[0][1] == 1:
+                            loggens[m[0][0]] = gg
+    out = ZERO
+    for m, c in p.t.items():
+        tot = ZERO
+        rest = []
+        for g, e in m:
+            if g in eg:
+                tot = tot + G.info[g]["arg"] * _fr(e)
+            elif g in loggens:
+                tot = tot + Poly.gen(loggens[g]) * _fr(e)
+            else:
+                rest.append((g, e))
+        term = Poly({tuple(rest): c})
+        if tot.t:
+            term = term * _fun_gen("Exp", tot)
+        out = out + term
+    return out
+
+
 def is_zero(p):
     """identically zero modulo the relations of pow atoms"""
     p = P(p)
     if not p.t:
         return True
+    if _exp_gens(p):
+        p = explog_normal(p)
+        if not p.t:
+            return True
     pg = _pow_gens(p)
     if not pg:
         return False
@@ -946,10 +1039,11 @@ def _subs_gen(g, mp, cache):
             r = mp.get(g)
         elif inf["kind"] == "ofun":
             nargs = [_subs(a, mp, cache) for a in inf["args"]]
-            if all(na.t == a.t for na, a in zip(nargs, inf["args"])):
+            ndv = None if inf.get("dvals") is None else [_subs(d, mp, cache) for d in inf["dvals"]]
+            if all(na.t == a.t for na, a in zip(nargs, inf["args"])) and (ndv is None or all(nd.t == d.t for nd, d in zip(ndv, inf["dvals"]))):
                 r = None
             else:
-                r = ofun(inf["name"], nargs)
+                r = ofun(inf["name"], nargs, ndv)
         else:
             a = inf["arg"]
             if a.gens() & _closure(mp):
